@@ -629,3 +629,24 @@ def eval_string_parts(stmts, truth: dict, result=None):
         else:
             return None
     return vals.get(result) if result else None
+
+
+def after_success(func_node, try_stmt) -> list:
+    """The statements that run next when the body of ``try_stmt`` completes normally: its else part and then, when no handler
+    can fall out of the try (each ends in continue / break / return / raise), what follows the try in its block."""
+    out = list(try_stmt.orelse)
+    def always_leaves(block):
+        if not block:
+            return False
+        last = block[-1]
+        if isinstance(last, (ast.Continue, ast.Break, ast.Return, ast.Raise)):
+            return True
+        return isinstance(last, ast.If) and always_leaves(last.body) and always_leaves(last.orelse)
+    leaves = all(always_leaves(h.body) for h in try_stmt.handlers)
+    if leaves or not try_stmt.handlers:
+        for n in ast.walk(func_node):
+            for fld in ("body", "orelse", "finalbody"):
+                bl = getattr(n, fld, None)
+                if isinstance(bl, list) and try_stmt in bl:
+                    out += bl[bl.index(try_stmt) + 1:]
+    return [x for x in out if not A.inert(x)]
